@@ -64,6 +64,7 @@ type PingOwner struct {
 	started bool
 	sent    int
 	got     int
+	idle    int
 	acc     []byte
 	Errs    []string
 }
@@ -100,6 +101,15 @@ func (p *PingOwner) ProduceInfo(ctx context.Context, pr *serviceinfo.Producer) (
 		b, _ := cbor.Marshal(true)
 		return false, false, pr.WriteChunk("active", b)
 	}
+	if p.got < p.sent {
+		// still waiting for an echo; a module must not poll the device forever
+		// (the device would loop up to its 1e6-round limit)
+		if p.idle++; p.idle > 20 {
+			return false, false, fmt.Errorf("device never answered ping %d", p.got)
+		}
+	} else {
+		p.idle = 0
+	}
 	if p.sent < len(p.Payloads) && p.got == p.sent {
 		b, _ := cbor.Marshal(p.Payloads[p.sent])
 		if len(b) > pr.Available("ping") {
@@ -113,8 +123,8 @@ func (p *PingOwner) ProduceInfo(ctx context.Context, pr *serviceinfo.Producer) (
 
 // PongDevice echoes "ping" payloads as "pong" and records every callback.
 type PongDevice struct {
-	Mod   string
-	Rec   *ModRecorder
+	Mod    string
+	Rec    *ModRecorder
 	KYield func(site string) // kernel yield, may be nil
 }
 
